@@ -221,24 +221,22 @@ impl SqPackData {
     fn read_standard_file(&mut self, offset: u64, file_info: &FileInfo) -> Option<ByteBuffer> {
         let standard_file_info = file_info.standard_info.as_ref()?;
 
-        let mut blocks: Vec<Block> = Vec::with_capacity(standard_file_info.num_blocks as usize);
+        // the block count and file size come from the entry header: nothing is reserved up front for them
+        let mut blocks: Vec<Block> = Vec::new();
 
         for _ in 0..standard_file_info.num_blocks {
             blocks.push(Block::read(&mut self.file).ok()?);
         }
 
-        let mut data: Vec<u8> = Vec::with_capacity(file_info.file_size as usize);
+        let mut data: Vec<u8> = Vec::new();
 
-        let starting_position = offset + (file_info.size as u64);
+        let starting_position = offset.checked_add(file_info.size as u64)?;
 
-        for i in 0..standard_file_info.num_blocks {
-            data.append(
-                &mut read_data_block(
-                    &mut self.file,
-                    starting_position + (blocks[i as usize].offset as u64),
-                )
-                .expect("Failed to read data block."),
-            );
+        for block in &blocks {
+            data.append(&mut read_data_block(
+                &mut self.file,
+                starting_position.checked_add(u64::try_from(block.offset).ok()?)?,
+            )?);
         }
 
         Some(data)
